@@ -27,8 +27,12 @@ class OldApiScenario:
         self.n = ch.int("nframes", 2, 3 if small else 4) if self.animated_src else 1
         self.src_w = ch.skewed("sw", 1, 24 if small else 48)
         self.src_h = ch.skewed("sh", 1, 24 if small else 48)
-        self.mode = ch.pick("mode", ("RGB", "RGBA", "L", "P")) if not self.animated_src else "P"
+        self.mode = ch.pick("mode", ("RGB", "RGBA", "L", "P", "noise", "noise")) \
+            if not self.animated_src else "P"
         self.source_kind = ch.pick("srckind", ("pil", "file"))
+        big_payload = self.style in ("kitty", "iterm2") and ch.bool("bigpayload", 0.4)
+        if big_payload and not self.animated_src:
+            self.mode = "noise"
         # image size in cells
         self.sizing = ch.weighted("sizing", [(5, "fixed"), (2, "dynamic"), (1, "fixed_big")])
         maxw = min(cols, 10 if small else 30)
@@ -69,8 +73,8 @@ class OldApiScenario:
                 self.style_args["z_index"] = ch.pick("kzv", (-1, 1, 5, -(2 ** 31) + 1, 2 ** 31 - 1))
             if ch.bool("kmix", 0.3):
                 self.style_args["mix"] = True
-            if ch.bool("kc", 0.3):
-                self.style_args["compress"] = ch.pick("kcv", (0, 9))
+            if ch.bool("kc", 0.3) or big_payload:
+                self.style_args["compress"] = ch.pick("kcv", (0, 9)) if not big_payload else 0
         elif self.style == "iterm2":
             if ch.bool("imethod", 0.6):
                 self.style_args["method"] = ch.pick("im", ("lines", "whole"))
@@ -91,7 +95,11 @@ class OldApiScenario:
             data = images.anim_bytes(self.n, self.src_w, self.src_h)
             suffix = ".gif"
         else:
-            data = images.still_bytes(self.src_w, self.src_h, self.mode)
+            if self.mode == "noise":
+                data = images.noisy_still_bytes(self.src_w * 3, self.src_h * 3,
+                                                seed=self.src_w * 64 + self.src_h)
+            else:
+                data = images.still_bytes(self.src_w, self.src_h, self.mode)
             suffix = ".png"
         kw = {}
         if self.sizing != "dynamic":
